@@ -98,7 +98,7 @@ SUITES.update({
     "TYPES-LOOKUP": types_suite("lookup", 0, 0, "all case variants of the seven names, one-edit neighbours over letters and look-alikes, padded / doubled names, 25 other PURL type names"),
     "TYPES-STR": types_suite("typestr", 3, 4, "every type string over {g B T 1 . + - ! , e-acute} up to length L, built with String, Cow::Borrowed, Cow::Owned, SmallString"),
     "TYPES-COMB": types_suite("combined", 4, 6, "every combined name over {a b / :} up to length L x seven types"),
-    "TYPES-COMBESC": types_suite("combesc", 4, 5, "every combined name over {@ % 2 F f 3 A : /} up to length L x seven types (escaped separators are ordinary characters)"),
+    "TYPES-COMBESC": types_suite("combesc", 4, 5, "every combined name over {@ % 2 F f 3 A : / ! a} up to length L x seven types (escaped separators and the Go module-proxy case escape are ordinary characters)"),
 })
 
 SUITES.update({
